@@ -21,7 +21,7 @@ RULE = ('case = (base triple: signer algorithm x signature kind x hash x produce
 ASSUMPTIONS = ['vf.ref.sig decides whether a mutant is semantic (validated on fixtures and against gpg in C02)', 'cryptography/OpenSSL primitives',
                'forgery across a 64-bit key-id collision is not attempted']
 MIN_COUNTERS = {'quick': {'semantic_mutants': 20000, 'baseline_true': 60, 'sig_bitflips': 10000, 'subject_mutants': 2000, 'key_mutants': 300,
-                          'wrong_verifier': 20, 'type_confusion': 200, 'carrier_mutants': 2000, 'message_content_edits': 300, 'several_signature_subjects': 90, 'copies_of_altered_signatures': 2000},
+                          'wrong_verifier': 20, 'type_confusion': 200, 'carrier_mutants': 2000, 'message_content_edits': 300, 'several_signature_subjects': 90, 'copies_of_altered_signatures': 2000, 'secret_form_subject_mutants': 300},
                 'thorough': {'semantic_mutants': 100000, 'baseline_true': 200}}
 BUDGET = {'quick': (600, 1500), 'thorough': (1800, 3600)}
 TECHNIQUE = 'runtime monitoring: data-fault injection (bit flips, edits, type confusion, wrong verifier) with an independent-verifier oracle that filters equivalent mutants'
@@ -308,6 +308,15 @@ def _subject(ctx, d, pgpy, key, subj, sig, sigbytes, refsubj, sm, pgpy_only=Fals
         return   # no subject: covered by confusion
     # structured subjects: mutate the exported packet octets of the subject component and re-import
     owner = subj._parent if isinstance(subj, pgpy.PGPUID) else (subj if subj.is_primary else subj._parent)
+    _structured_subject(ctx, d, pgpy, key, sig, sigbytes, refsubj, sm, pgpy_only, r, owner, False)
+    # the same subject held in secret form (the owner's private key): what is hashed is still its public part
+    for cand in (sigwork.signer_key(d['signer']) if 'signer' in d else None, sigwork.target_key()):
+        if cand is not None and str(cand.fingerprint) == str(owner.fingerprint) and d.get('p') == 'pgpy':
+            _structured_subject(ctx, d, pgpy, key, sig, sigbytes, refsubj, sm, pgpy_only, r, cand, True)
+            break
+
+
+def _structured_subject(ctx, d, pgpy, key, sig, sigbytes, refsubj, sm, pgpy_only, r, owner, secret_form):
     blob = bytes(owner)
     pkts = wire.split(blob)
     if 'uid' in refsubj or 'ua' in refsubj:
@@ -322,7 +331,22 @@ def _subject(ctx, d, pgpy, key, subj, sig, sigbytes, refsubj, sm, pgpy_only=Fals
         fields = [('primary', 0)]
     for fname, idx in fields:
         body = pkts[idx].body
-        muts = _mut_bytes(r, body, 160 if fname != 'ua' else 80)
+        tail_secret = b''
+        if secret_form and fname in ('primary', 'subkey'):
+            # only the public part of a secret key packet is altered; the secret part stays as it is
+            publen = RK.parse_pub(body)['publen']
+            body, tail_secret = body[:publen], body[publen:]
+        elif secret_form:
+            continue        # user ids / attributes are the same packets in both forms
+        muts = [(n_, m_ + tail_secret) for n_, m_ in _mut_bytes(r, body, 60 if secret_form else (160 if fname != 'ua' else 80))]
+        if fname in ('primary', 'subkey') and len(body) > 6 and body[5] == 18:
+            # ECDH: the last four octets of the public part are 03 01 <KDF hash> <KEK cipher>; every other legal parameter pair is other key material
+            for hh, cc in ((8, 7), (9, 8), (10, 9), (8, 9), (10, 7), (9, 7)):
+                if (hh, cc) != (body[-2], body[-1]):
+                    muts.append(('ecdh-kdf-parameters', body[:-2] + bytes([hh, cc]) + tail_secret))
+        body = body + tail_secret
+        if secret_form:
+            ctx.count('secret_form_subject_mutants', len(muts))
         if fname == 'uid':
             import unicodedata
             try:
